@@ -26,6 +26,8 @@ var (
 // after a faulted scan is normal.
 type NoCrash struct {
 	D            *Decisions
+	// CrashOnly skips the "next scan is normal" clause (worlds the reference decision does not define).
+	CrashOnly    bool
 	prevFaulted  bool
 	prevLifetime int
 }
@@ -66,7 +68,7 @@ func (m *NoCrash) AfterScan(ctx *h.ScanCtx) []h.Violation {
 		ctx.H.Cov["c20.exit-after-third-failed-fleet-provisioning"]++
 	}
 	inner := m.D.AfterScan(ctx)
-	if m.prevFaulted && !ctx.Faulted && !ctx.Fresh && r.Err == nil && r.Panic == nil {
+	if !m.CrashOnly && m.prevFaulted && !ctx.Faulted && !ctx.Fresh && r.Err == nil && r.Panic == nil {
 		ctx.H.Cov["c20.fault-free-scan-after-faulted-scan"]++
 		for _, v := range inner {
 			if strings.Contains(v.Sig, "float-equality") {
@@ -154,6 +156,53 @@ func C20Scenarios(tier string) []*h.Scenario {
 		}
 		out = append(out, s)
 	}
+	// nodes carrying the escalator taint twice (different effects), in the three possible orders around a
+	// foreign taint. The reference decision does not define such nodes, so only the crash clauses apply.
+	{
+		g := StdGroup("g1")
+		g.Opts.MaxNodes = 10
+		g.ASG.Max = 10
+		s := &h.Scenario{Name: "c20.dup-taint", Groups: []h.GroupSpec{g}, Slots: 4, Quantum: Q, MaxEventsPerSlot: 1, FaultOps: c20AllOps}
+		s.Init = func(hh *h.Hist) {
+			a := InitASGs(hh)[0]
+			n1 := hh.W.AddNode(a, sim.NodeOpt{Age: 20 * Q})
+			hh.W.AddPod(podOn(g, n1.Name, 500))
+			esc1 := v1.Taint{Key: h.TaintKey, Value: "946684700", Effect: v1.TaintEffectNoSchedule}
+			esc2 := v1.Taint{Key: h.TaintKey, Value: "946684800", Effect: v1.TaintEffectNoExecute}
+			other := v1.Taint{Key: "other", Value: "x", Effect: v1.TaintEffectNoSchedule}
+			for i, ts := range [][]v1.Taint{{esc1, other, esc2}, {other, esc1, esc2}, {esc1, esc2, other}} {
+				n := hh.W.AddNode(a, sim.NodeOpt{Age: time.Duration(21+i) * Q})
+				n.Spec.Taints = ts
+			}
+		}
+		s.Events = func(hh *h.Hist, slot int) []h.Event {
+			return []h.Event{evBurst(g, 3, 2000), evClearAllPods(g), evRestart()}
+		}
+		out = append(out, s)
+	}
+	// the same zoo under dry mode (dry taints live in memory only: the reaper sees "tainted" nodes
+	// that carry no taint)
+	{
+		g := StdGroup("g1")
+		g.Opts.MaxNodes = 14
+		g.ASG.Max = 14
+		g.Opts.DryMode = true
+		g.Opts.MinNodes = 0
+		s := &h.Scenario{Name: "c20.dry", Groups: []h.GroupSpec{g}, Slots: 5, Quantum: Q, MaxEventsPerSlot: 1, FaultOps: c20AllOps}
+		s.Init = func(hh *h.Hist) {
+			a := InitASGs(hh)[0]
+			n1 := hh.W.AddNode(a, sim.NodeOpt{Age: 20 * Q})
+			hh.W.AddPod(podOn(g, n1.Name, 50))
+			hh.W.AddNode(a, sim.NodeOpt{Age: 21 * Q})
+			hh.W.AddNode(a, sim.NodeOpt{Age: 22 * Q, TaintAge: dp(5 * Q)})
+			hh.W.AddNode(a, sim.NodeOpt{Age: 23 * Q, ForceTaint: true})
+			hh.W.AddNode(a, sim.NodeOpt{Age: 24 * Q, NoAlloc: true})
+		}
+		s.Events = func(hh *h.Hist, slot int) []h.Event {
+			return []h.Event{evBurst(g, 3, 4000), evClearAllPods(g), evRestart()}
+		}
+		out = append(out, s)
+	}
 	// registration lag: scale up, wait out the cool-down, odd nodes register meanwhile
 	for _, fleet := range []bool{false, true} {
 		g := StdGroup("g1")
@@ -209,10 +258,12 @@ func init() {
 	register(&Check{
 		ID:    "C20",
 		Level: "fault_enumeration",
-		Rule: "deviation-bounded DFS over 5..6-scan histories of worlds holding odd objects (no allocatable, provider ids \"\", \"garbage\", \"aws://x\", \"aws:///az-a\", \"aws:///az-a/\", \"a/b/c/d/e/f\", taint values \"\", \"abc\", \"-5\", 20 nines, pods without requests / containers / with empty and partial affinity), nodes with odd provider ids registering during a cool-down (SetDesiredCapacity and fleet mode), zero-capacity and vanished groups; " +
+		Rule: "deviation-bounded DFS over 5..6-scan histories of worlds holding odd objects (no allocatable, provider ids \"\", \"garbage\", \"aws://x\", \"aws:///az-a\", \"aws:///az-a/\", \"a/b/c/d/e/f\", taint values \"\", \"abc\", \"-5\", 20 nines, pods without requests / containers / with empty and partial affinity, a node carrying the escalator taint twice), the same under dry mode, nodes with odd provider ids registering during a cool-down (SetDesiredCapacity and fleet mode), zero-capacity and vanished groups; " +
 			"a failure is injected at every Kubernetes / AWS call and lister of every scan, up to 3 deviations (quick) / 4 (thorough), DescribeInstances failing slot-wide; non-trivial = scans with an injected fault or an odd object in view; distinct = distinct execution traces",
 		Scenarios: C20Scenarios,
-		Monitors:  func() []h.Monitor { return []h.Monitor{&NoCrash{D: NewDecisions()}} },
+		MonitorsFor: func(s *h.Scenario) []h.Monitor {
+			return []h.Monitor{&NoCrash{D: NewDecisions(), CrashOnly: s.Name == "c20.dup-taint"}}
+		},
 		Bound: func(tier string) int {
 			if tier == "thorough" {
 				return 4
@@ -221,7 +272,7 @@ func init() {
 		},
 		Prune:       true,
 		Nontrivial:  func(hh *h.Hist) []string { return []string{fmt.Sprint(hh.Trace)} },
-		Assumptions: append([]string{"hangs are detected in virtual time (a scan blocked on timers, channels or sleeps for 10000 virtual seconds); a CPU-bound infinite loop would instead stall the worker and is not modelled", "DescribeInstances calls are issued while ranging over a map, so their failure is a slot-wide switch rather than a per-call choice"}, commonAssumptions...),
+		Assumptions: append([]string{"hangs are detected in virtual time (a scan blocked on timers, channels or sleeps for 10000 virtual seconds); a CPU-bound loop is caught by a real-time watchdog outside the bubble (one execution in flight for more than VERIF_STALL_S = 300 s, against a normal cost of milliseconds)", "DescribeInstances calls are issued while ranging over a map, so their failure is a slot-wide switch rather than a per-call choice"}, commonAssumptions...),
 		Alphabet:    []string{"fail at every k8s get/update/delete, pod/node lister, DescribeAutoScalingGroups, SetDesiredCapacity, TerminateInstanceInAutoScalingGroup, AttachInstances, CreateOrUpdateTags, CreateFleet, DescribeInstanceStatus, TerminateInstances", "ec2-describe-instances-down", "register-node(odd provider id | no allocatable)", "burst", "clear-pods", "restart", "instances-never-ready", "all-nodes-vanish"},
 	})
 }
